@@ -89,6 +89,20 @@ func WithError(err error) ExitOption {
 	}
 }
 
+// runExitHandler runs one exit handler. A handler that panics is logged like one that returns an
+// error: it must not keep the remaining handlers and the slot chain's exit from running, otherwise
+// the statistic slots never see the completion (the concurrency of the resource is never released).
+func (e *SentinelEntry) runExitHandler(handler ExitHandler, ctx *EntryContext) {
+	defer func() {
+		if err := recover(); err != nil {
+			logging.Error(errors.Errorf("%+v", err), "Panic in exitHandler in SentinelEntry.Exit()", "resource", e.Resource().Name())
+		}
+	}()
+	if err := handler(e, ctx); err != nil {
+		logging.Error(err, "Fail to execute exitHandler in SentinelEntry.Exit()", "resource", e.Resource().Name())
+	}
+}
+
 func (e *SentinelEntry) Exit(exitOps ...ExitOption) {
 	var options = ExitOptions{
 		err: nil,
@@ -116,9 +130,7 @@ func (e *SentinelEntry) Exit(exitOps ...ExitOption) {
 			ctx.SetError(options.err)
 		}
 		for _, handler := range e.exitHandlers {
-			if err := handler(e, ctx); err != nil {
-				logging.Error(err, "Fail to execute exitHandler in SentinelEntry.Exit()", "resource", e.Resource().Name())
-			}
+			e.runExitHandler(handler, ctx)
 		}
 		if e.sc != nil {
 			e.sc.exit(ctx)
